@@ -51,7 +51,8 @@ def floors(tier):
     return {'evaluations': 30000, 'distinct_nontrivial': 10000, 'errors_located': 15000,
             'faults_injected': 20000, 'histkeys:fault': 9, 'legacy_api_errors': 3000,
             'custom_context_soups': 500, 'parser_class_context_soups': 1000, 'parses_from_configured_state': 2000,
-            'stop_condition_entry_points': 3000, 'truncated_documents_parsed_before_injection': 500}
+            'stop_condition_entry_points': 3000, 'truncated_documents_parsed_before_injection': 500,
+            'failed_parse_inside_verbatim_then_stray_brace': 40}
 
 
 def setup(rec):
@@ -200,6 +201,17 @@ def run_shard(desc, rec):
                 rec.case()
                 rec.monitor('truncated_documents_parsed_before_injection')
                 check_case({'s': s[:cut], 'ctx': cdesc, 'apis': ['new']}, rec)
+            # earlier parse that failed *inside verbatim text*, then a stray brace right after that verbatim argument
+            from ..gen import doc as D
+            for (v0, v1, vo, vc) in list(D.LAST_RENDER.get('vspans', []))[:3]:
+                if v1 + len(vc) > len(s) or s[v1:v1 + len(vc)] != vc or (v1 + len(vc)) not in set(bounds):
+                    continue    # only at boundaries the generator knows to be safe (not before a further verbatim argument)
+                rec.case()
+                rec.monitor('failed_parse_inside_verbatim_then_stray_brace')
+                check_case({'s': s[:rng.randint(v0, v1)], 'ctx': cdesc, 'apis': ['new']}, rec)
+                after = v1 + len(vc)
+                check_case({'s': s[:after] + '}' + s[after:], 'ctx': cdesc, 'must_raise': True, 'fault': '}', 'at': after,
+                            'apis': ['new'], 'after_failed_parse': s[:v0]}, rec)
             bs = list(bounds)
             if len(bs) > desc['maxb']:
                 bs = sorted(rng.sample(bs, desc['maxb']))
